@@ -3,6 +3,8 @@
 package control
 
 import (
+	"encoding/binary"
+	"bytes"
 	"fmt"
 	"math/rand"
 	"net/netip"
@@ -47,6 +49,16 @@ var c03Ids = map[string]uint8{"direct": 0, "block": 1, "pa": 2, "pb": 3, "cp": u
 
 const c03DaePid = 4242
 const c03UserPid = 777
+
+func c03FirstDiff(a, b []byte) int {
+	n := min(len(a), len(b))
+	for i := 0; i < n; i++ {
+		if a[i] != b[i] {
+			return i
+		}
+	}
+	return n
+}
 
 func c03DecText(d c03Dec) string {
 	name := d.Out
@@ -107,6 +119,28 @@ func c03RunOne(k *vKern, b *c03Behaviour, idx int, rng *rand.Rand, res *verifuti
 		src = netip.AddrPortFrom(netip.AddrFrom4([4]byte{10, 9, byte(idx >> 8), byte(idx)}), uint16(20000+idx%30000))
 		dst = netip.AddrPortFrom(netip.MustParseAddr("203.0.113.77"), dport)
 	}
+	// link type: every other pair of behaviours runs on the L3 programs (devices without a link-layer header). BPF_PROG_TEST_RUN
+	// derives skb->protocol from bytes 12-13 of the frame, which for a frame that starts with the IP header lie inside the source
+	// address: the L3 flows use addresses that carry the ethertype there (8.0.x.y; xxxx:xxxx:86dd::...), in both directions.
+	l3 := (idx/2)%2 == 1
+	if l3 {
+		if v6 {
+			src = netip.AddrPortFrom(netip.MustParseAddr(fmt.Sprintf("fd00:0:86dd::%x", 0x100+idx%0xe00)), src.Port())
+			dst = netip.AddrPortFrom(netip.MustParseAddr("2001:db8:86dd::53"), dport)
+		} else {
+			src = netip.AddrPortFrom(netip.AddrFrom4([4]byte{8, 0, byte(idx >> 8), byte(idx)}), src.Port())
+			dst = netip.AddrPortFrom(netip.MustParseAddr("8.0.113.77"), dport)
+		}
+	}
+	wire := func(fr *vFrame) []byte {
+		if !l3 {
+			return fr.Bytes()
+		}
+		if fr.PadTo > 0 {
+			fr.PadTo += 14
+		}
+		return fr.Bytes()[14:]
+	}
 	dscp := uint8([]int{0, 10, 46}[idx%3])
 	srcMac := [6]byte{2, 0, 0, 0, 1, byte(idx)}
 	k.ForgetFlow(src, dst, l4)
@@ -151,6 +185,9 @@ func c03RunOne(k *vKern, b *c03Behaviour, idx int, rng *rand.Rand, res *verifuti
 	}
 	setAlive()
 	fam := map[bool]string{false: "v4", true: "v6"}[v6]
+	if l3 {
+		fam += " L3 link"
+	}
 	cfg := fmt.Sprintf("%s %s %s", b.Side, b.L4, fam)
 	var trail []string
 	trail = append(trail, "rules: "+c03DecText(b.Init))
@@ -231,7 +268,11 @@ func c03RunOne(k *vKern, b *c03Behaviour, idx int, rng *rand.Rand, res *verifuti
 			if rng.Intn(2) == 0 {
 				fr.PadTo = 140
 			}
-			run, err := vRunProg(k.objs.TproxyWanIngressL2, fr.Bytes(), 0)
+			revProg := k.objs.TproxyWanIngressL2
+			if l3 {
+				revProg = k.objs.TproxyWanIngressL3
+			}
+			run, err := vRunProg(revProg, wire(&fr), 0)
 			if err != nil {
 				res.Note("wan ingress run: " + err.Error())
 				return
@@ -262,10 +303,16 @@ func c03RunOne(k *vKern, b *c03Behaviour, idx int, rng *rand.Rand, res *verifuti
 			}
 			trail = append(trail, fmt.Sprintf("%s by %s [%s]", ev.K, ev.P, path))
 			prog := k.objs.TproxyLanIngressL2
+			if l3 {
+				prog = k.objs.TproxyLanIngressL3
+			}
 			mark := uint32(0)
 			var window []uint64
 			if b.Side == "wan" {
 				prog = k.objs.TproxyWanEgressL2
+				if l3 {
+					prog = k.objs.TproxyWanEgressL3
+				}
 				var err error
 				switch ev.P {
 				case "user":
@@ -280,7 +327,8 @@ func c03RunOne(k *vKern, b *c03Behaviour, idx int, rng *rand.Rand, res *verifuti
 					return
 				}
 			}
-			run, err := vRunProg(prog, fr.Bytes(), mark)
+			sentBytes := wire(&fr)
+			run, err := vRunProg(prog, sentBytes, mark)
 			if err != nil {
 				res.Note("prog run: " + err.Error())
 				return
@@ -305,6 +353,44 @@ func c03RunOne(k *vKern, b *c03Behaviour, idx int, rng *rand.Rand, res *verifuti
 				fail("", "verdict %s, expected %s; %s; groups alive %v", got, map[string]string{"OK": "pass", "SHOT": "drop", "REDIRECT": "redirect to dae"}[ev.Obs.Verdict], why, alive)
 				return
 			}
+			// the frame itself: passed traffic is let through unmodified; a redirected frame is the original behind the link-layer header
+			// dae0 expects (L2: destination MAC rewritten; L3: a header put in front), nothing else changed
+			if run.Ret == vTcOk && ev.Obs.Verdict == "OK" {
+				res.Eval(1)
+				if l3 {
+					res.Count("c03_l3_passes", 1)
+				}
+				if !bytes.Equal(run.Data, sentBytes) {
+					fail("|modified", "the frame was passed on but not unmodified: %d bytes in, %d bytes out, first difference at byte %d", len(sentBytes), len(run.Data), c03FirstDiff(run.Data, sentBytes))
+					return
+				}
+			}
+			if run.Ret == vTcRedirect && ev.Obs.Verdict == "REDIRECT" {
+				res.Eval(1)
+				got, in := run.Data, sentBytes
+				if l3 {
+					res.Count("c03_l3_redirects", 1)
+					if len(got) != len(in)+14 {
+						fail("|modified", "redirected L3 frame: %d bytes in, %d bytes out, expected a 14-byte link-layer header in front", len(in), len(got))
+						return
+					}
+					wantType := uint16(0x0800)
+					if v6 {
+						wantType = 0x86dd
+					}
+					if binary.BigEndian.Uint16(got[12:14]) != wantType {
+						fail("|modified", "redirected L3 frame carries ethertype %#x in the header put in front, the packet is %s", binary.BigEndian.Uint16(got[12:14]), fam)
+						return
+					}
+					got = got[14:]
+				} else if len(got) >= 6 && len(in) >= 6 {
+					got, in = got[6:], in[6:]
+				}
+				if !bytes.Equal(got, in) {
+					fail("|modified", "the frame redirected to dae differs from what was sent beyond the link-layer header (first difference at byte %d)", c03FirstDiff(got, in))
+					return
+				}
+			}
 			if ev.Obs.Verdict == "OK" && b.Side == "lan" && int(run.Mark) != ev.Obs.Mark {
 				fail("|mark", "forwarded direct traffic leaves with mark %#x, the rule says %#x", run.Mark, ev.Obs.Mark)
 				return
@@ -325,8 +411,12 @@ func c03RunOne(k *vKern, b *c03Behaviour, idx int, rng *rand.Rand, res *verifuti
 					fail("|record", "the control plane recovers (outbound %d, mark %#x, must %d); the kernel's decision was (%s=%d, mark %#x, must %v)", rr.Outbound, rr.Mark, rr.Must, ev.Obs.Rec.Out, wantOut, ev.Obs.Rec.Mark, ev.Obs.Rec.Must)
 					return
 				}
-				if rr.Dscp != dscp || (rr.Mac != srcMac) {
-					fail("|meta", "the record carries dscp %d mac %v, the flow has dscp %d mac %v", rr.Dscp, rr.Mac, dscp, srcMac)
+				wantMac := srcMac
+				if l3 {
+					wantMac = [6]byte{} // no link-layer header: no source MAC
+				}
+				if rr.Dscp != dscp || (rr.Mac != wantMac) {
+					fail("|meta", "the record carries dscp %d mac %v, the flow has dscp %d mac %v", rr.Dscp, rr.Mac, dscp, wantMac)
 					return
 				}
 				if b.Side == "wan" && ev.P == "user" && procKnown && !ev.Tracked {
